@@ -7,7 +7,6 @@ import (
 
 	"github.com/ipld/go-ipld-prime"
 	"github.com/ipld/go-ipld-prime/datamodel"
-	"github.com/ipld/go-ipld-prime/must"
 )
 
 // Match determines if the IPLD node satisfies the policy.
@@ -263,8 +262,15 @@ func matchStatement(cur Statement, node ipld.Node) (_ matchResult, leafMost Stat
 //   - For "<=" it returns true when order is -1 or 0
 func isOrdered(expected ipld.Node, actual ipld.Node, satisfies func(order int) bool) bool {
 	if expected.Kind() == ipld.Kind_Int && actual.Kind() == ipld.Kind_Int {
-		a := must.Int(actual)
-		b := must.Int(expected)
+		// integers beyond int64 (AsInt fails) are outside the safe bounds: not comparable
+		a, err := actual.AsInt()
+		if err != nil {
+			return false
+		}
+		b, err := expected.AsInt()
+		if err != nil {
+			return false
+		}
 
 		return satisfies(cmp.Compare(a, b))
 	}
